@@ -109,7 +109,7 @@ theorem agree_set {env : Src.Env} {ρ : Store} (x : String) (v : Src.Val) (hx : 
     obtain ⟨hg, hv⟩ := h y w hy
     exact ⟨hg, by rw [set_other _ _ _ _ e]; exact hv⟩
 
-theorem assign1_ok {x : Var} {e : Expr} {s s' : St} {a : Unit} (h0 : s.funcs = [])
+theorem assign1_ok {x : Var} {e : Expr} {s s' : St} {a : Unit}
     (h : assignValues conv [x] [e] s = .ok (a, s')) :
     ∃ r s1, Tr.evalExpr conv e true s = .ok (r, s1) ∧ s' = { s1 with code := .assign (varName s1 x.name x.global) (firstValue r) :: s1.code } := by
   unfold assignValues at h
@@ -149,7 +149,7 @@ theorem assign1_sem {x : Var} {e : Expr} (hx : goodName x.name = true) (hf : Src
     (hsrc : ∀ fuel c o c', src fuel c = some (o, c') →
       ∃ v, Src.evalExpr c.env e = some v ∧ o = .normal ∧ c' = { c with env := c.env.set x.name v }) :
     StmtSem src s s' := by
-  obtain ⟨r, s1, hr, es'⟩ := assign1_ok h0 h
+  obtain ⟨r, s1, hr, es'⟩ := assign1_ok h
   obtain ⟨t, new, n, er, e1⟩ := expr_shape e true s r s1 hf h0 hr
   subst er; subst e1
   refine ⟨(new.reverse ++ [Line.assign x.name t]).map Cmd.simple, n, 0, ?_, ?_⟩
